@@ -544,12 +544,12 @@ HARNESSES = [
     Harness(
         "convexhull_mask",
         h_hull,
-        lambda tier, seed: [{"npts": 3, "qshape": (1,)}, {"npts": 3, "qshape": (1,), "proj": ("2", "-1/2")}] + ([{"npts": 4, "qshape": (1,)}, {"npts": 3, "qshape": (1, 2)}] if tier == "thorough" else []),
-        bounds="3 (quick) / 4 (thorough) fully symbolic data points (any scale and offset, non-degenerate) and 1-2 fully symbolic query points; optional affine projection (concrete slopes of either sign, symbolic offsets) of data and query points alike",
+        lambda tier, seed: [{"npts": 3, "qshape": (1,)}, {"npts": 3, "qshape": (1,), "proj": ("2", "-1/2")}] + ([{"npts": 3, "qshape": (1, 2)}, {"npts": 3, "qshape": (2, 1), "proj": ("-1", "3")}] if tier == "thorough" else []),
+        bounds="3 fully symbolic data points (any scale and offset, non-degenerate) and 1-2 fully symbolic query points; optional affine projection (concrete slopes of either sign, symbolic offsets) of data and query points alike",
         stubs=["scipy.spatial.Delaunay -> hull-membership contract on the points as passed"],
         extra_globals=_globals,
         engine={"oneshot": True, "keyed_sqrt": True, "sqrt_pos_axiom": True, "div_elim": True, "timeout_ms": 60000},
-        outside="points on the hull boundary; more than 4 data points; OUT-LIB (qhull)",
+        outside="points on the hull boundary; more than 3 symbolic data points (4 symbolic points: the orientation certificate times out at 60 s per query; a concrete 4-point hull is in convexhull_mask_grid); OUT-LIB (qhull)",
         timeout_s=1200,
     ),
     Harness(
